@@ -291,6 +291,24 @@ def gen_cases(tier):
         for kind in ("real64", "cplx128"):
             nr, nc, A = base(g, kind)
             add(g, "zero", kind, 0 * A, 0 * adjoint(A), nr, nc)
+        # 10. operators scaled by exact powers of two (tiny / large entries): the requested atol
+        #     (default 1e-21, or 0) is the one applied, whatever the magnitude of xx, yy
+        g = common.rng(PID, "pow2", rep)
+        for kind, exps in (("real64", (-60, -30, 20)), ("cplx128", (-60, -30, 20)), ("rlin", (-60, 20)),
+                           ("real32", (-30, -40)), ("cplx64", (-30, -40))):
+            dtype = KINDS[kind][0]
+            for e in exps:
+                s = 2.0 ** e
+                for atol in (1e-21, 0.0):
+                    wrongs = [("exact", 1.0), ("scaled", 2.0), ("scaled", 0.0), ("sign", -1.0), ("scaled", 1.0 + 2.0 ** -7)]
+                    if KINDS[kind][3]:
+                        wrongs.append(("noconj", None))
+                    for wf, fac in wrongs:
+                        nr, nc, A = base(g, kind)
+                        A = (A * s).astype(A.dtype)
+                        B = A.T if fac is None else (fac * adjoint(A))
+                        add(g, "pow2_" + wf, kind, A, B, nr, nc, rtol=g.choice([1e-6, 1e-4] if "32" not in kind else [1e-3, 1e-2]),
+                            atol=atol, extra={"scale": "2^%d" % e, "factor": fac})
     for i, c in enumerate(cases):
         c["id"] = i
     return cases
